@@ -11,6 +11,7 @@ from props.C04 import call_results
 from props.C10 import len_of, reads
 
 META = {
+    "explanation_more": 'Also (round 4): insert_addr always merges into the held entry or pushes (C18.merge.insert); addresses enter the cache only through add_addr and the merge functions (C18.insert.who); one cache file: cache_path is set once from config.cache_file_path and neither is changed afterwards (C18.path.*).',
     "explanation": "Decides: (1) the cache file is written only by BootstrapCacheStore::write through AtomicWriteFile::open … commit (every Ok "
                    "return of write passes commit after the data was written); no fs::write / File::create / truncating or writing "
                    "OpenOptions exists in ant_bootstrap; (2) add_addr inserts only behind craft_valid_multiaddr(addr,false) == Some and a "
